@@ -12,7 +12,7 @@ from stubs import GaussWF, CosWF
 
 sys.path.insert(0, os.path.join(VERIF, "translator"))
 
-THEOREMS = ["C01_forward_is_forward_noise", "C01_backward_is_reverse_noise", "C01_proposal_variance_is_tstep",
+THEOREMS = ["C01_exponent_is_log_density_ratio", "C01_ratio_is_psi2_times_tprob", "C01_proposal_variance_is_tstep",
             "C01_tprob_is_reverse_over_forward_density", "C01_acceptance_is_metropolis_hastings", "C01_detailed_balance",
             "C01_effects_consistent", "C01_rejected_walkers_keep_coordinates", "C01_limdrift_caps_the_drift", "C01_mixture_ratio"]
 S_VMC = "pyqmc/method/mc.py:vmc_worker"
